@@ -6,6 +6,7 @@ import hashlib
 import importlib.util
 import json
 import os
+import re
 import shutil
 import sys
 import tempfile
@@ -34,6 +35,9 @@ def load_known():
         return {'known': [], 'fixed': []}
 
 
+OBL_FILTER = {}     # unit path -> regex: obligations of a shared unit that belong to the property being run
+
+
 def units_for(pid, scratch, tier, only=None):
     d = os.path.join(SPECS, pid)
     paths = sorted(glob.glob(os.path.join(d, '*.unit')))
@@ -49,8 +53,24 @@ def units_for(pid, scratch, tier, only=None):
     if os.path.exists(sh):
         for ln in open(sh):
             ln = ln.split('#')[0].strip()
-            if ln:
+            flt = None
+            if ' ~' in ln:                         # "C15/accessors.gen.py ~regex": only the obligations whose text matches belong to this property
+                ln, flt = ln.split(' ~', 1)
+                ln, flt = ln.strip(), re.compile(flt.strip())
+            n0 = len(paths)
+            if ln and ln.endswith('.gen.py'):      # a generator of another property: its units are generated for this run too
+                g = os.path.join(SPECS, ln)
+                gd = os.path.join(gen_dir, 'shared_' + ln.replace('/', '_')[:-7])
+                os.makedirs(gd, exist_ok=True)
+                spec = importlib.util.spec_from_file_location('gen_shared_' + os.path.basename(g)[:-7], g)
+                mod = importlib.util.module_from_spec(spec)
+                spec.loader.exec_module(mod)
+                paths += mod.generate(gd, tier)
+            elif ln:
                 paths.append(os.path.join(SPECS, ln))
+            if flt is not None:
+                for q in paths[n0:]:
+                    OBL_FILTER[q] = flt
     if only:
         paths = [p for p in paths if only in os.path.basename(p)]
     return paths
@@ -149,6 +169,13 @@ def run_property(pid, tier, seed, meta, known, scratch, a):
     violations = []
     known_hits = []
     for r in results:
+        flt = OBL_FILTER.get(r.unit.path) if r.unit is not None else None
+        if flt is not None:      # a shared unit run for another property: only the obligations that property states are counted
+            r.obligations = [o for o in r.obligations if o['class'] != 'assertion' or flt.search(o['description'])]
+            r.failed = [o for o in r.failed if o['class'] != 'assertion' or flt.search(o['description'])]
+            r.obligation_filter = flt.pattern
+            if r.status == 'fail' and not r.failed:
+                r.status = 'ok'
         if r.status != 'fail':
             continue
         for o in r.failed:
@@ -232,6 +259,7 @@ def write_evidence(pid, tier, seed, meta, results, known_hits, violations, wall,
                'assumed': u.get('assumed', '') if u else '', 'advisory_waiver': ((u.get('advisory', '') + ' -- ' + u.get('advisory-reason', '')) if u and u.get('advisory') else ''), 'anchors': u.get('anchors', '') if u else '',
                'failed': [{'obligation': o['name'], 'cbmc': o['id'], 'description': o['description']} for o in r.failed],
                'generator': {k: v for k, v in (u.gen_meta or {}).items() if k != 'functions'} if u else {},
+               'obligation_filter': getattr(r, 'obligation_filter', ''),
                'by_class': {}}
         for o in r.obligations:
             ent['by_class'][o['class']] = ent['by_class'].get(o['class'], 0) + 1
